@@ -293,7 +293,13 @@ pub trait Quantity: Copy + Sized + Mul<AmountT> {
             fmt::Display::fmt(&self.amount(), form)
         } else {
             let tmp: String;
+            #[cfg(feature = "fpdec")]
             let amnt_non_neg = self.amount() >= AMNT_ZERO;
+            // The sign shown must be the sign of the amount as the float
+            // formatter sees it (`-0.0` prints as `-0`), otherwise the text
+            // gets a second sign character.
+            #[cfg(not(feature = "fpdec"))]
+            let amnt_non_neg = !self.amount().is_sign_negative();
             #[cfg(feature = "fpdec")]
             let abs_amnt = self.amount().abs();
             #[cfg(not(feature = "fpdec"))]
